@@ -67,15 +67,15 @@ type GStatus struct {
 }
 
 type Result struct {
-	Trace       []Step    `json:"trace"`
-	Sizes       []int     `json:"-"` // size of the eligible set at every step
-	Preempt     []bool    `json:"-"` // whether choosing a non-zero index at step i is a preemption
-	Terminal    []GStatus `json:"terminal"`
-	Deadlock    bool      `json:"deadlock"`     // nobody eligible, somebody waits for a lock
-	StepLimit   bool      `json:"step_limit"`   // schedule cut at MaxSteps
-	Panics      []string  `json:"panics"`       // non-sentinel panics of managed goroutines
-	LockPairs   [][2]string `json:"-"`          // (held -> acquired) label pairs seen
-	Choices     []int     `json:"choices"`      // the choices actually used (normalised)
+	Trace     []Step      `json:"trace"`
+	Sizes     []int       `json:"-"` // size of the eligible set at every step
+	Preempt   []bool      `json:"-"` // whether choosing a non-zero index at step i is a preemption
+	Terminal  []GStatus   `json:"terminal"`
+	Deadlock  bool        `json:"deadlock"`   // nobody eligible, somebody waits for a lock
+	StepLimit bool        `json:"step_limit"` // schedule cut at MaxSteps
+	Panics    []string    `json:"panics"`     // non-sentinel panics of managed goroutines
+	LockPairs [][2]string `json:"-"`          // (held -> acquired) label pairs seen
+	Choices   []int       `json:"choices"`    // the choices actually used (normalised)
 }
 
 // Blocked reports whether the named goroutine ended durably blocked in a real
@@ -90,18 +90,19 @@ func (r *Result) Status(name string) *GStatus {
 }
 
 type Sched struct {
-	mu          sync.Mutex
-	gs          []*G
-	byGoid      map[uint64]*G
-	choices     []int
-	maxSteps    int
-	unlockEpoch atomic.Uint64
-	aborting    atomic.Bool
-	res         *Result
-	last        *G
-	lockPairs   map[[2]string]struct{}
-	OnTerminal  func(r *Result) // called inside the bubble at the terminal state, before cleanup
-	Cleanup     func()          // cancels contexts etc. so that blocked goroutines can unwind
+	mu             sync.Mutex
+	gs             []*G
+	byGoid         map[uint64]*G
+	choices        []int
+	maxSteps       int
+	unlockEpoch    atomic.Uint64
+	aborting       atomic.Bool
+	res            *Result
+	last           *G
+	lockPairs      map[[2]string]struct{}
+	writersWaiting map[unsafe.Pointer]int
+	OnTerminal     func(r *Result) // called inside the bubble at the terminal state, before cleanup
+	Cleanup        func()          // cancels contexts etc. so that blocked goroutines can unwind
 }
 
 var active atomic.Pointer[Sched]
@@ -191,12 +192,38 @@ func lockImpl(ref any, r bool, lock func(), try func() bool, label string) {
 	}
 	k := lockKey{keyOf(ref), r}
 	s.park(g, label)
-	for !try() {
+	// sync.RWMutex semantics: once a writer waits for the lock, readers arriving later wait behind it (a second RLock
+	// by a goroutine that already holds a read lock then deadlocks against that writer)
+	announced := false
+	attempt := func() bool {
+		if r {
+			s.mu.Lock()
+			pending := s.writersWaiting[k.p] > 0
+			s.mu.Unlock()
+			if pending {
+				return false
+			}
+		}
+		return try()
+	}
+	for !attempt() {
+		if !r && !announced {
+			announced = true
+			s.mu.Lock()
+			s.writersWaiting[k.p]++
+			s.mu.Unlock()
+		}
 		g.lockEpoch = s.unlockEpoch.Load()
 		g.waitKey = k.p
 		g.waitLock.Store(true)
 		s.park(g, label+"/wait")
 		g.waitLock.Store(false)
+	}
+	if announced {
+		s.mu.Lock()
+		s.writersWaiting[k.p]--
+		s.mu.Unlock()
+		s.unlockEpoch.Add(1) // readers held back by this writer may look again (they will now find the lock taken)
 	}
 	// record lock-order pairs (held -> acquired)
 	s.mu.Lock()
@@ -342,7 +369,7 @@ type Options struct {
 func Run(t *testing.T, opt Options, setup func(s *Sched)) *Result {
 	res := &Result{}
 	synctest.Test(t, func(t *testing.T) {
-		s := &Sched{byGoid: map[uint64]*G{}, choices: opt.Choices, maxSteps: opt.MaxSteps, res: res, lockPairs: map[[2]string]struct{}{}}
+		s := &Sched{byGoid: map[uint64]*G{}, choices: opt.Choices, maxSteps: opt.MaxSteps, res: res, lockPairs: map[[2]string]struct{}{}, writersWaiting: map[unsafe.Pointer]int{}}
 		if s.maxSteps <= 0 {
 			s.maxSteps = 4000
 		}
